@@ -386,6 +386,8 @@ func (e *Exec) selectOp(st *State, fr *Frame, in *ssa.Select) {
 		dir := "recv"
 		if s.Dir == types.SendOnly {
 			dir = "send"
+			// whichever alternative is taken, the value offered must satisfy the channel's invariant
+			e.checkChanInv(st, fr, in, s.Chan, e.val(st, fr, s.Send))
 		}
 		alts = append(alts, alt{i, fmt.Sprintf("select:%s:%d", dir, i)})
 	}
